@@ -431,7 +431,15 @@ def closure_elements(prog, fn, ev, bname):
                 if not raw:
                     continue
                 # compensated inside the closure by the captured pointer's sign?
-                comp = any(x[0] == "gamma" and mir.is_call(strip(x[1]), "is_neg") for x in mir.subterms(a))
+                def _sign_adjusted(x):
+                    # γ(c; sub, neg(sub)) in either order, whatever carries the sign test (is_neg() or a hoisted bool)
+                    if x[0] != "gamma" or len(x[2]) != 2:
+                        return False
+                    arms = [strip(v) for _, v in x[2]]
+                    plain = [v for v in arms if mir.is_call(v, "sub")]
+                    negd = [v for v in arms if mir.is_call(v, "neg") and mir.is_call(strip(v[2][0]), "sub")]
+                    return len(plain) == 1 and len(negd) == 1 and strip(negd[0][2][0]) == plain[0]
+                comp = any(_sign_adjusted(x) for x in mir.subterms(a))
                 k += 1
                 out.append(inst("CP", "%s:%s:closure-elem#%d" % (fn.npath, bname, k), OK if comp else VIOLATION, fn, c2.line,
                                 "element subs are sign-adjusted before use" if comp else
